@@ -266,6 +266,7 @@ func oracle(c *Case) (interleaved bool, err error) {
 }
 
 func run(t interface{ Fatalf(string, ...any) }, c *Case) {
+	defer fix.Track(prop, "addrow", c, c.Summary())()
 	evid.Inflight(prop, "addrow", c, c.Summary())
 	inter, err := oracle(c)
 	evid.ClearInflight(prop, "addrow")
